@@ -239,6 +239,20 @@ class State:
         return ('obj', '%s#%d' % (tag, n))
 
 
+def canon_ts(ts):
+    def c(v):
+        if isinstance(v, dict):
+            return frozenset((k, c(x)) for k, x in v.items())
+        if isinstance(v, (set, frozenset)):
+            return frozenset(v)
+        if isinstance(v, (list, tuple)):
+            return tuple(c(x) for x in v)
+        if hasattr(v, 'key'):
+            return v.key()
+        return v
+    return c(ts) if ts else ()
+
+
 def node_loc(n):
     if n is None:
         return (None, None)
@@ -319,6 +333,7 @@ class Interp:
         self.live_base = [0]    # index into live_stack where the current function's frames start
         self.fn_locals = [frozenset()]
         self.liveness = True
+        self.prune_in_dedupe = True
         self._suf_cache = {}
         self._deps_cache = {}
         self._suf_keep = []
@@ -1323,18 +1338,25 @@ class Interp:
             del s.eqfact[k]
         return resident
 
-    def signature(self, s, rv):
-        resident = self.prune_facts(s, rv)
-        memsig = tuple(sorted((repr(k), repr(vkey(v))) for k, v in s.mem.items()))
-        pf = tuple(sorted((repr(k), v) for k, v in s.ptrfact.items() if resident(k)))
-        cf = tuple(sorted((repr(k), tuple(v)) for k, v in s.cons.items() if resident(k)))
-        ef = tuple(sorted((repr(k), v) for k, v in s.eqfact.items()
-                          if all(resident(x) for x in k[1:] if isinstance(x, tuple))))
-        ev = tuple(repr((e[0], e[1]) + tuple(vkey(x) if hasattr(x, 'key') else x for x in e[2:]))
+    def signature(self, s, rv, prune=True):
+        """hashable, order-independent digest of everything that must agree for two states to be merged"""
+        memsig = frozenset((k, vkey(v)) for k, v in s.mem.items())
+        if prune:
+            resident = self.prune_facts(s, rv)
+            pf = frozenset((k, v) for k, v in s.ptrfact.items() if resident(k))
+            cf = frozenset((k, v) for k, v in s.cons.items() if resident(k))
+            ef = frozenset((k, v) for k, v in s.eqfact.items()
+                           if all(resident(x) for x in k[1:] if isinstance(x, tuple)))
+        else:
+            pf = frozenset(s.ptrfact.items())
+            cf = frozenset(s.cons.items())
+            ef = frozenset(s.eqfact.items())
+        ev = tuple((e[0], e[1]) + tuple(vkey(x) if hasattr(x, 'key') else (tuple(vkey(y) for y in x) if isinstance(x, list) else x)
+                                        for x in e[2:])
                    for e in s.trace if self.rule.keep_event(e))
-        pc = tuple(repr(p) for p in s.pc) if self.rule.track_pc else ()
-        return (repr(vkey(rv)), memsig, tuple(sorted(map(repr, s.zero))), pf, cf, ef,
-                repr(sorted(s.ts.items())), ev, pc, tuple(repr(c[:3]) for c in s.cleanups))
+        pc = tuple((vkey(p[0]), p[1], p[2]) for p in s.pc) if self.rule.track_pc else ()
+        return (vkey(rv), memsig, frozenset(s.zero), pf, cf, ef, canon_ts(s.ts), ev, pc,
+                tuple(c[:3] for c in s.cleanups))
 
     @staticmethod
     def join_facts(kept, dup):
@@ -1816,14 +1838,14 @@ class Interp:
         for o in outs:
             s, ctrl = o[0], o[1]
             if ctrl is NORMAL or ctrl[0] in ('break', 'continue', 'goto'):
-                sig = (repr(ctrl), self.signature(s, Int(0)))
+                sig = (ctrl[:1] + tuple(x if not hasattr(x, 'key') else x.key() for x in ctrl[1:]), self.signature(s, Int(0), prune=self.prune_in_dedupe))
             elif ctrl[0] == 'return':
-                sig = ('return', self.signature(s, ctrl[1] if ctrl[1] is not None else Int(0)))
+                sig = ('return', self.signature(s, ctrl[1] if ctrl[1] is not None else Int(0), prune=self.prune_in_dedupe))
             else:
                 res.append(o)
                 continue
             if len(o) > 2:
-                sig = sig + (repr(vkey(o[2])) if o[2] is not None else None,)
+                sig = sig + (vkey(o[2]) if o[2] is not None else None,)
             if sig in seen:
                 self.merged += 1
                 self.join_facts(seen[sig], s)
